@@ -42,6 +42,50 @@ theorem nr_genRv {v : Rv} (hv : RvOK v) (d : Dst) : (genRv v (.to d)).all Instr.
   | call _ _ _ => exact absurd hv (by simp [RvOK])
 
 
+/-! ### value positions with calls -/
+
+mutual
+  theorem nrC_genExpr : ∀ (e : Expr), ExprC V e → (genExpr e).all Instr.plainI = true
+    | .lit v, _ => by simp [genExpr, pushLit, Instr.plainI]
+    | .var n, _ => by simp [genExpr, Instr.plainI]
+    | .reg r, _ => by simp [genExpr, Instr.plainI]
+    | .call f ps as, h => by
+      have := nrC_genCall f ps as h.2.2
+      simp only [genExpr, List.all_append, this, Bool.true_and]; rfl
+    | .un m e, h => by
+      have := nrC_genExpr e h
+      cases m <;> simp [genExpr, this, Instr.plainI]
+    | .bin op a b, h => by
+      have h1 := nrC_genExpr a h.1
+      have h2 := nrC_genExpr b h.2
+      simp [genExpr, h1, h2, Instr.plainI]
+    | .paren e, h => by simpa [genExpr] using nrC_genExpr e h
+  theorem nrC_genRv : ∀ (v : Rv) (d : Dst), RvC V v → (genRv v (.to d)).all Instr.plainI = true
+    | .lit x, d, _ => by simp [genRv, Instr.plainI]
+    | .var n, d, _ => by simp [genRv, Instr.plainI]
+    | .reg r, d, _ => by simp only [genRv]; split <;> simp [Instr.plainI]
+    | .expr e, d, h => by
+      have := nrC_genExpr e h
+      simp [genRv, this, Instr.plainI]
+    | .call f ps as, d, h => by
+      have := nrC_genCall f ps as h.2.2
+      simp only [genRv, List.all_append, this, Bool.true_and]
+      split <;> simp [Instr.plainI]
+  theorem nrC_genCall : ∀ (f : String) (ps : List String) (as : Args), ArgsC V as →
+      (genCall f ps as).all Instr.plainI = true
+    | f, ps, as, h => by
+      have := nrC_genParams ps as h
+      simp only [genCall, List.all_append, this, Bool.and_true]; rfl
+  theorem nrC_genParams : ∀ (ps : List String) (as : Args), ArgsC V as →
+      (genParams ps as).all Instr.plainI = true
+    | [], _, _ => by simp only [genParams]; rfl
+    | _ :: _, .nil, _ => by simp only [genParams]; rfl
+    | p :: ps, .cons a rest, h => by
+      have h1 := nrC_genRv a Gen.result h.1
+      have h2 := nrC_genParams ps rest h.2
+      simp only [genParams, List.all_append, h1, h2, Bool.true_and, Bool.and_true]; rfl
+end
+
 theorem nr_genOutArgs : ∀ (as : Args), ArgsOK as → (genOutArgs as).all Instr.plainI = true
   | .nil, _ => by simp [genOutArgs]
   | .cons a rest, h => by
@@ -130,8 +174,8 @@ theorem nr_genLoop {hd : LoopHdr} (hh : LoopHdrOK V hd) (body : Code) (hb : nr b
     nr (genLoop hd body) = true := by
   cases hd with
   | forever => exact nr_assembleLoop _ _ _ _ _ rfl rfl rfl hb rfl
-  | while_ c => exact nr_assembleLoop _ _ _ _ _ rfl (nr_genRv hh _) rfl hb rfl
-  | count n => exact nr_assembleLoop _ _ _ _ _ (nr_genRv hh _) rfl rfl hb rfl
+  | while_ c => exact nr_assembleLoop _ _ _ _ _ rfl (nrC_genRv c _ hh) rfl hb rfl
+  | count n => exact nr_assembleLoop _ _ _ _ _ (nrC_genRv n _ hh) rfl rfl hb rfl
   | range v a b =>
     exact nr_assembleLoop _ _ _ _ _ (all_indexVarRange v a b true hh.1 hh.2) rfl rfl hb rfl
   | interp n v a b =>
@@ -183,7 +227,7 @@ theorem all_timePatterns (rest : List TP.Pat) :
 
 mutual
   theorem nr_genStmt : ∀ (st : Stmt), FragStmt V st → nr (genStmt st) = true
-    | .setReg r v, h => by simp only [genStmt, nr_ins]; exact nr_genRv h.2 _
+    | .setReg r v, h => by simp only [genStmt, nr_ins]; exact nrC_genRv v _ h.2
     | .units m, _ => by simp only [genStmt, nr_ins]; rfl
     | .actAll k, _ => by cases k <;> (simp only [genStmt, nr_ins]; rfl)
     | .setDefault, _ => by simp only [genStmt, nr_ins]; rfl
@@ -191,39 +235,39 @@ mutual
       have := nr_genOperands k ops h
       cases k <;> (simp only [genStmt, nr_append, nr_ins, this, Bool.and_true]; rfl)
     | .get name, h => by
-      simp only [genStmt, nr_ins, List.all_append, nr_genRv h, Bool.true_and]; rfl
+      simp only [genStmt, nr_ins, List.all_append, nrC_genRv name _ h, Bool.true_and]; rfl
     | .wait, _ => by simp only [genStmt, nr_ins]; rfl
     | .timeAt ps, _ => by
       cases ps with
       | nil => simp only [genStmt, nr_ins]; rfl
       | cons p rest =>
         simp only [genStmt, nr_ins, List.all_cons, all_timePatterns, Bool.and_true]; rfl
-    | .assign n v, h => by simp only [genStmt, nr_ins]; exact nr_genRv h _
+    | .assign n v, h => by simp only [genStmt, nr_ins]; exact nrC_genRv v _ h
     | .defMacro n v, _ => by simp only [genStmt, nr_ins]; rfl
     | .defRoutine _ _ _, h => absurd h (by simp [FragStmt])
     | .call g ps as, h => by
-      simp only [genStmt, nr_ins, genCall, List.all_append, nr_genParams ps as h.1, Bool.and_true]; rfl
+      simp only [genStmt, nr_ins]; exact nrC_genCall g ps as h.1
     | .ret none, _ => by simp only [genStmt, nr_ins]; rfl
     | .ret (some rv), h => by
-      have h : RvOK rv := h
-      simp only [genStmt, nr_ins, List.all_append, nr_genRv h, Bool.true_and]; rfl
+      have h : RvC V rv := h
+      simp only [genStmt, nr_ins, List.all_append, nrC_genRv rv _ h, Bool.true_and]; rfl
     | .ite c t none, h => by
-      simp only [genStmt, genIf, nr_append, nr_ins, nr_genRv h.1, nr_genBlock t h.2.1, Bool.true_and,
+      simp only [genStmt, genIf, nr_append, nr_ins, nrC_genRv c _ h.1, nr_genBlock t h.2.1, Bool.true_and,
         Bool.and_true]
       exact nr_single _ rfl
     | .ite c t (some e), h => by
-      simp only [genStmt, genIf, nr_append, nr_ins, nr_genRv h.1, nr_genBlock t h.2.1,
+      simp only [genStmt, genIf, nr_append, nr_ins, nrC_genRv c _ h.1, nr_genBlock t h.2.1,
         nr_genBlock e h.2.2, Bool.and_true, nr_single _ (rfl : Instr.plainI (.jump _ _) = true)]
     | .repeat_ hd body, h => by
       simp only [genStmt]
       exact nr_genLoop h.1 _ (nr_genBlock body h.2)
     | .brk, _ => by simp only [genStmt]; rfl
     | .print v, h => by
-      simp only [genStmt, nr_ins, List.all_append, nr_genRv h, Bool.true_and]; rfl
+      simp only [genStmt, nr_ins, List.all_append, nrC_genRv v _ h, Bool.true_and]; rfl
     | .println none, _ => by simp only [genStmt, nr_ins]; rfl
     | .println (some rv), h => by
-      have h : RvOK rv := h
-      simp only [genStmt, nr_ins, List.all_append, nr_genRv h, Bool.true_and]; rfl
+      have h : RvC V rv := h
+      simp only [genStmt, nr_ins, List.all_append, nrC_genRv rv _ h, Bool.true_and]; rfl
     | .printf fmt as, h => by
       simp only [genStmt, nr_ins, List.all_append, nr_genOutArgs as h.1, Bool.true_and]; rfl
     | .stage rows cols cf, h => by
